@@ -1,42 +1,109 @@
-import Pathrs.Proofs.SafeSys
+import Pathrs.Proofs.SafeRoot
 
 /-!
 # C05 — only single, non-followed components are ever handed to the kernel
 
-`Disc followOk` (in `Proofs/Disc.lean`) is the discipline as a predicate on one
-call.  The theorems state that under every environment (whose only assumed
-property is that returned descriptors are non-negative) every call of the named
-program satisfies it.  `Disc false` admits no `openat` without `O_NOFOLLOW` at all.
+`Disc followOk c` (`Pathrs/Discipline.lean`) is the discipline as a decidable
+predicate on one system call:
+
+* `openat`: a real directory descriptor (never `AT_FDCWD`), one component without
+  `/`, raw flags ⊇ `O_NOFOLLOW|O_CLOEXEC|O_NOCTTY`; the only other shapes are the
+  bootstrap `openat(AT_FDCWD, "/proc")` and — only when `followOk` — an `openat`
+  that still has `O_CLOEXEC|O_NOCTTY` (the one followed link of `open_follow`);
+* `openat2`: `O_CLOEXEC` and a resolve mask ⊇ `IN_ROOT|NO_MAGICLINKS` or
+  ⊇ `BENEATH|NO_XDEV|NO_MAGICLINKS`;
+* `readlinkat` only on the descriptor itself (empty name); `fstatat`/`statx` with
+  exactly `AT_NO_AUTOMOUNT|AT_SYMLINK_NOFOLLOW|AT_EMPTY_PATH`;
+* every mutating `*at` call: real descriptors and single components, `linkat`
+  without `AT_SYMLINK_FOLLOW`;
+* diagnostics (`FrozenFd`) and bootstrap only below `/proc/`.
+
+`Safe (Disc f) p Q` says: under **every** environment whose answers never contain
+a negative descriptor, every call `p` makes satisfies `Disc f`.  The hypotheses are
+that the caller's root descriptor and the global procfs descriptor are real
+descriptors.
 -/
 
 open K
 
-/-- The open wrapper always forces `O_NOFOLLOW|O_CLOEXEC|O_NOCTTY`, whatever
-flags the caller passes, and its diagnostics stay on `/proc`. -/
-theorem C05_openat_forces_nofollow (dir : Fd) (name : Bytes) (flags mode : Nat)
-    (hd : 0 ≤ dir) (hn : single name) :
-    Safe (Disc false) (Sys.openat dir name flags mode) FdOk :=
-  openat_safe dir name flags mode hd hn
+variable (env : Env) (root : Root)
 
-/-- `openat2` is only ever issued with `O_CLOEXEC` and a confining resolve mask. -/
-theorem C05_openat2_confined (dir : Fd) (path : Bytes) (flags rflags : Nat) (hd : 0 ≤ dir) :
-    Safe (Disc false) (Sys.openat2 dir path flags
-      (RESOLVE_IN_ROOT ||| RESOLVE_NO_MAGICLINKS ||| rflags)) FdOk :=
-  openat2_safe dir path flags _ hd (Or.inl (hasAll_or_mono _ _ _ (by decide)))
+/-! ## Operations that never follow anything (`Disc false`) -/
 
-/-- Every trace of a `Safe` program consists of disciplined calls (what `Safe`
-means for runs). -/
-theorem C05_safe_means_every_call (p : Prog α) (Q : α → Prop) (hp : Safe (Disc b) p Q)
-    (o : Oracle) (hsane : ∀ h c, (o h c).sane) :
-    ∀ cr ∈ (p.trace o []).1, Disc b cr.1 :=
+theorem C05_resolve (path : Bytes) (nofollow : Bool) (hr : 0 ≤ root.fd) (hp : 0 ≤ env.proc.fd) :
+    Safe (Disc false) (Root.resolve env root path nofollow) FdOk :=
+  root_resolve_safe env root path nofollow hr hp
+
+theorem C05_readlink (path : Bytes) (hr : 0 ≤ root.fd) (hp : 0 ≤ env.proc.fd) :
+    Safe (Disc false) (Root.readlink env root path) (fun _ => True) :=
+  root_readlink_safe env root path hr hp
+
+theorem C05_create (path : Bytes) (ty : InodeType) (hr : 0 ≤ root.fd) (hp : 0 ≤ env.proc.fd) :
+    Safe (Disc false) (Root.create env root path ty) (fun _ => True) :=
+  root_create_safe env root path ty hr hp
+
+theorem C05_create_file (path : Bytes) (flags perm : Nat) (hr : 0 ≤ root.fd) (hp : 0 ≤ env.proc.fd) :
+    Safe (Disc false) (Root.createFile env root path flags perm) FdOk :=
+  root_createFile_safe env root path flags perm hr hp
+
+theorem C05_remove_inode (path : Bytes) (isDir : Bool) (hr : 0 ≤ root.fd) (hp : 0 ≤ env.proc.fd) :
+    Safe (Disc false) (Root.removeInode env root path isDir) (fun _ => True) :=
+  root_removeInode_safe env root path isDir hr hp
+
+theorem C05_remove_all (path : Bytes) (hr : 0 ≤ root.fd) (hp : 0 ≤ env.proc.fd) :
+    Safe (Disc false) (Root.removeAll env root path) (fun _ => True) :=
+  root_removeAll_safe env root path hr hp
+
+theorem C05_rename (src dst : Bytes) (rflags : Nat) (hr : 0 ≤ root.fd) (hp : 0 ≤ env.proc.fd) :
+    Safe (Disc false) (Root.rename env root src dst rflags) (fun _ => True) :=
+  root_rename_safe env root src dst rflags hr hp
+
+theorem C05_proc_open (h : ProcH) (base : Procfs.Base) (subpath : Bytes) (oflags fuel : Nat)
+    (hh : 0 ≤ h.fd) : Safe (Disc false) (Procfs.openH env fuel h base subpath oflags) FdOk :=
+  openH_safe env fuel h base subpath oflags hh
+
+theorem C05_proc_readlink (h : ProcH) (base : Procfs.Base) (subpath : Bytes) (hh : 0 ≤ h.fd) :
+    Safe (Disc false) (Procfs.readlinkH env h base subpath) (fun _ => True) :=
+  readlinkH_safe env h base subpath hh
+
+theorem C05_procfs_new : Safe (Disc false) (Procfs.new env) ProcHOk := new_safe env
+
+theorem C05_procfs_new_unmasked : Safe (Disc false) (Procfs.newUnmasked env) ProcHOk :=
+  newUnmasked_safe env
+
+/-! ## Operations that contain the one followed link (`Disc true`) -/
+
+theorem C05_proc_open_follow (h : ProcH) (base : Procfs.Base) (subpath : Bytes) (oflags : Nat)
+    (hh : 0 ≤ h.fd) : Safe (Disc true) (Procfs.openFollowH env h base subpath oflags) FdOk :=
+  openFollowH_safe env h base subpath oflags hh
+
+theorem C05_reopen (fd : Fd) (flags : Nat) (hf : 0 ≤ fd) (hp : 0 ≤ env.proc.fd) :
+    Safe (Disc true) (Procfs.reopen env fd flags) FdOk :=
+  reopen_safe env fd flags hf hp
+
+theorem C05_open_subpath (path : Bytes) (flags : Nat) (hr : 0 ≤ root.fd) (hp : 0 ≤ env.proc.fd) :
+    Safe (Disc true) (Root.openSubpath env root path flags) FdOk :=
+  root_openSubpath_safe env root path flags hr hp
+
+theorem C05_mkdir_all (path : Bytes) (perm : Nat) (hr : 0 ≤ root.fd) (hp : 0 ≤ env.proc.fd) :
+    Safe (Disc true) (Root.mkdirAll env root path perm) FdOk :=
+  root_mkdirAll_safe env root path perm hr hp
+
+/-! ## What `Safe` means for runs -/
+
+/-- Every call of every run of a `Safe` program against an environment that never
+answers with a negative descriptor satisfies the discipline. -/
+theorem C05_safe_means_every_call {α : Type} {f : Bool} (p : Prog α) (Q : α → Prop)
+    (hp : Safe (Disc f) p Q) (o : Oracle) (hsane : ∀ h c, (o h c).sane) :
+    ∀ cr ∈ (p.trace o []).1, Disc f cr.1 :=
   (Safe.trace_calls hp o hsane [] (by simp)).1
 
-/-- non-vacuity: a disciplined call, and an undisciplined one that the predicate rejects -/
-example : Disc false (.openat 5 b!"a" (O_PATH ||| O_NOFOLLOW ||| O_CLOEXEC ||| O_NOCTTY) 0) := by
-  refine Or.inl ⟨by decide, by simp [single, Path.containsSlash, Path.slash], by decide⟩
-example : ¬ Disc false (.openat 5 b!"a/b" (O_PATH ||| O_NOFOLLOW ||| O_CLOEXEC ||| O_NOCTTY) 0) := by
-  simp [Disc, single, Path.containsSlash, Path.slash, K.AT_FDCWD]
-example : ¬ Disc false (.openat 5 b!"a" (O_PATH ||| O_CLOEXEC ||| O_NOCTTY) 0) := by
-  simp [Disc, K.AT_FDCWD]
-  intro _
-  decide
+/-! ## Non-vacuity: the predicate accepts a disciplined call and rejects undisciplined ones -/
+
+example : Disc false (.openat 5 b!"a" (O_PATH ||| O_NOFOLLOW ||| O_CLOEXEC ||| O_NOCTTY) 0) := by decide
+example : ¬ Disc true (.openat 5 b!"a/b" (O_PATH ||| O_NOFOLLOW ||| O_CLOEXEC ||| O_NOCTTY) 0) := by decide
+example : ¬ Disc false (.openat 5 b!"a" (O_PATH ||| O_CLOEXEC ||| O_NOCTTY) 0) := by decide
+example : ¬ Disc true (.openat AT_FDCWD b!"a" (O_PATH ||| O_NOFOLLOW ||| O_CLOEXEC ||| O_NOCTTY) 0) := by decide
+example : ¬ Disc true (.unlinkat 5 b!"a/b" 0) := by decide
+example : ¬ Disc true (.openat2 5 b!"a/b" (O_PATH ||| O_CLOEXEC) 0 RESOLVE_NO_SYMLINKS 24) := by decide
+example : ¬ Disc true (.linkat 5 b!"a" 6 b!"b" 0x400) := by decide
